@@ -348,6 +348,10 @@ def runResult (b : Block) : Res :=
     else if iout ≠ body.map (fun v => v.id.getD 0) then some s!"Out={iout}"
     else if ierr ≠ showE wantErr then some s!"Err={ierr}_expected={showE wantErr}"
     else none
-  { conform := c, prop := p, stats := [s!"size={rets.length}", s!"class={if finalErr then "finalerr" else "noerr"}"] }
+  -- C15: loading the result into the function's own output set (twice) leaves the result what it was
+  let fr := ((field b "fr").getD []).headD "skip"
+  let p15 := if fr = "skip" ∨ fr = "intact" then "ok" else s!"FAIL:FromResult_on_the_functions_own_output_set_{fr}"
+  { conform := c, prop := p, props := [("C15", p15)],
+    stats := [s!"size={rets.length}", s!"class={if finalErr then "finalerr" else "noerr"}"] }
 
 end ArgMapper.Driver
